@@ -175,39 +175,34 @@ def check(ctx):
     want = {'reserve_resources': ('in_use + amount', 'cap'), '_release_resources': ('in_use - amount', 'cap'), 'add_resources': ('in_use', 'cap + amount')}
     for op, (wu, wc) in want.items():
         fn = P.method(RM, op)[1]
-        g = ctx.graph(RM, op)
-        # stores into the pool table anywhere in the operation, helpers inlined; values normalised along the chain of frames
-        stores = [n for n in g.nodes.values() if n.kind == 'stmt' and isinstance(n.ast, ast.Assign) and isinstance(n.ast.targets[0], ast.Subscript)
-                  and is_self_attr(n.ast.targets[0].value, '_resources')]
+        g, sym, res = explore_symbolic(ctx, RM, op)
+        stores = pool_stores(g)
         o.count()
         if not stores:
             o.fail(P, f'ResourceManager.{op}', f'self._resources[name] = ({wu}, {wc})', 'the operation never updates the pool table', file=RM.mod.path, line=fn.lineno)
         for n in stores:
-            s = n.ast
-            o.count()
-            env = FrameEnv(n.frame)
-            key = N.norm(s.targets[0].slice, env).key()
-            v = s.value
-            if isinstance(v, ast.Name):
-                r = env.resolve(v.id)
-                if r is not None:
-                    v, env = r[0], r[1]
-            if not (isinstance(v, ast.Tuple) and len(v.elts) == 2):
-                o.fail(P, f'ResourceManager.{op}', s, 'a pool entry must be stored as (in use, capacity)', node=n)
-                continue
-            u, cap = N.norm(v.elts[0], env), N.norm(v.elts[1], env)
-            U, C = f'self._resources[{key}][0]', f'self._resources[{key}][1]'
-            amount = 'amount'
-            forms = {'in_use': {U: 1}, 'in_use + amount': {U: 1, amount: 1}, 'in_use - amount': {U: 1, amount: -1}, 'cap': {C: 1}, 'cap + amount': {C: 1, amount: 1}}
-            new_entry = op == 'add_resources' and u.is_({}, 0) and cap.is_({amount: 1})
-            if new_entry:
-                o.witness((op, 'new-entry'))
-                continue
-            if not (u.is_(forms[wu]) and cap.is_(forms[wc])):
-                o.fail(P, f'ResourceManager.{op}', s, f'{op} must store ({wu}, {wc}) for the entry it read; found ({u.key()}, {cap.key()})', node=n)
-            else:
-                o.witness((op, 'update'))
-                o.sample({'operation': op, 'store': ast.unparse(s), 'normal_form': f'({u.key()}, {cap.key()})', 'line': s.lineno})
+            for st in res.at(n.id):
+                o.count()
+                pr = sym.pair(n.ast.value, st, n.frame)
+                key = sym.atom_text(n.ast.targets[0].slice, st, n.frame)
+                if pr is None or key is None:
+                    o.fail(P, f'ResourceManager.{op}', n.ast, 'a pool entry must be stored as (in use, capacity)', node=n, path=res.path_lines(n.id, st))
+                    continue
+                u, cap = pr
+                U, C = f'self._resources[{key}][0]', f'self._resources[{key}][1]'
+                # the amount is whatever is neither the old entry nor a constant: the operation's own parameter or the loop variable
+                others = sorted({k for k in list(u.terms) + list(cap.terms) if k not in (U, C)})
+                amount = others[0] if len(others) == 1 else 'amount'
+                forms = {'in_use': {U: 1}, 'in_use + amount': {U: 1, amount: 1}, 'in_use - amount': {U: 1, amount: -1}, 'cap': {C: 1}, 'cap + amount': {C: 1, amount: 1}}
+                new_entry = op == 'add_resources' and u.is_({}, 0) and cap.is_({amount: 1}) and len(others) == 1
+                if new_entry:
+                    o.witness((op, 'new-entry'))
+                    continue
+                if not (u.is_(forms[wu]) and cap.is_(forms[wc])):
+                    o.fail(P, f'ResourceManager.{op}', n.ast, f'{op} must store ({wu}, {wc}) for the entry it read; found ({u.key()}, {cap.key()})', node=n, path=res.path_lines(n.id, st))
+                else:
+                    o.witness((op, 'update'))
+                    o.sample({'operation': op, 'store': n.src(), 'normal_form': f'({u.key()}, {cap.key()})', 'line': n.line})
     # holdings: decided on the supergraphs of release / merge (helpers inlined, local aliases of the holdings dict rebased, locals substituted)
     NR = Normalizer(P, RR)
 
@@ -579,48 +574,56 @@ def provable_nonneg(E, literals):
     return False
 
 
-def capacity_sign(ctx, RM, o):
+def pool_stores(g):
+    return [n for n in g.nodes.values() if n.kind == 'stmt' and isinstance(n.ast, ast.Assign) and isinstance(n.ast.targets[0], ast.Subscript)
+            and is_self_attr(subst(n.ast.targets[0].value, FrameEnv(n.frame)), '_resources')]
+
+
+def explore_symbolic(ctx, RM, e):
+    """supergraph of an entry point of the manager explored with the symbolic store (sa/symx.py): -> (graph, Sym, Result)"""
+    from ..symx import Sym
     P = ctx.P
-    N = Normalizer(P, RM)
+    g = ctx.graph(RM, e)
+    sym = Sym(P, RM, g)
+    an = Analysis(P, g, [])
+    sym.install(an)
+    res = ctx.explore(an, [State({})], follow_exc=True)
+    return g, sym, res
+
+
+def capacity_sign(ctx, RM, o):
+    """every (store into the pool table, path reaching it): the stored capacity component, evaluated with the symbolic store of that path
+    (locals defined on two branches, boolean locals, tuples held in locals, helper parameters), is >= 0 in every case of what is known on
+    the path (a disjunction is analysed case by case)"""
+    from ..symx import literals
+    P = ctx.P
     nst = 0
     for e in sorted(dv.entry_points(P, RM)):
         g = ctx.graph(RM, e)
-        stores = [n for n in g.nodes.values() if n.kind == 'stmt' and isinstance(n.ast, ast.Assign) and isinstance(n.ast.targets[0], ast.Subscript)
-                  and is_self_attr(n.ast.targets[0].value, '_resources')]
+        stores = pool_stores(g)
         if not stores:
             continue
-
-        def edge_hook(an, n, label, st):
-            if n.kind == 'cond' and label in ('T', 'F'):
-                r = cmp_norm(N, n.ast, FrameEnv(n.frame), label == 'T')
-                if r:
-                    return st.with_flag(f'lit|{n.id}|{label}')
-            return st
-        an = Analysis(P, g, [])
-        an.edge_hooks.append(edge_hook)
-        an.node_hooks.append(drop_iteration_literals)
-        res = ctx.explore(an, [State({})], follow_exc=True)
+        g, sym, res = explore_symbolic(ctx, RM, e)
         for sn in stores:
-            v = sn.ast.value
-            if not (isinstance(v, ast.Tuple) and len(v.elts) == 2):
-                continue
-            E = N.norm(v.elts[1], FrameEnv(sn.frame))
             for st in res.at(sn.id):
+                pr = sym.pair(sn.ast.value, st, sn.frame)
                 o.count()
                 nst += 1
-                lits = []
-                for fl in st.flags:
-                    if fl.startswith('lit|'):
-                        _, nid, lab = fl.split('|')
-                        cn = g.nodes[int(nid)]
-                        lits.append(cmp_norm(N, cn.ast, FrameEnv(cn.frame), lab == 'T'))
+                if pr is None:
+                    o.fail(P, f'ResourceManager.{e}', None, 'a pool entry must be stored as (in use, capacity) with values the analysis can follow', node=sn,
+                           path=res.path_lines(sn.id, st))
+                    continue
+                E = pr[1]
+                alts = sym.known(st)
                 o.witness((e, sn.line))
-                if not provable_nonneg(E, lits):
+                bad_alt = next((alt for alt in alts if not provable_nonneg(E, literals(alt))), None)
+                if bad_alt is not None:
+                    known = [f'{l.key()} {op} 0' for l, op in literals(bad_alt)]
                     o.fail(P, f'ResourceManager.{e}', None, f'the capacity stored here, `{E.key()}`, is not guaranteed to be >= 0 on this path '
-                           f'(known: {[f"{l.key()} {op} 0" for l, op in lits] or "nothing"}): capacity can become negative',
-                           node=sn, path=res.path_lines(sn.id, st))
+                           f'(known: {known or "nothing"}): capacity can become negative', node=sn, path=res.path_lines(sn.id, st))
                 else:
-                    o.sample({'store': sn.src(), 'line': sn.line, 'capacity_expr': E.key(), 'path_literals': [f'{l.key()} {op} 0' for l, op in lits]})
+                    o.sample({'store': sn.src(), 'line': sn.line, 'capacity_expr': E.key(), 'cases': len(alts),
+                              'path_literals': [f'{l.key()} {op} 0' for l, op in literals(alts[0])] if alts else []})
     o.require(nst >= 4, f'only {nst} (store, path) pairs of the pool table examined')
 
 
